@@ -11,10 +11,15 @@ func main() {
 	prop := flag.String("prop", "", "property id")
 	out := flag.String("out", "", "summary file")
 	replay := flag.String("replay", "", "replay file")
+	c09child := flag.Bool("c09child", false, "run C09 hostile-input jobs from stdin (child process)")
 	c17child := flag.Bool("c17child", false, "run C17 scenarios from stdin (child process)")
 	flag.Parse()
 	if *c17child {
 		concChildMain()
+		return
+	}
+	if *c09child {
+		hostileChildMain()
 		return
 	}
 	if *replay != "" {
@@ -43,6 +48,8 @@ func main() {
 		genC18(r)
 	case "C17":
 		genC17(r)
+	case "C09":
+		genC09(r)
 	case "C02":
 		genC02(r)
 	case "C01", "C07", "C13":
